@@ -198,6 +198,8 @@ func Skeleton(tf parser.TemplateFile) string {
 				sb.WriteString("(call ")
 				nodes(n.Children)
 				sb.WriteString(")")
+			case parser.CallTemplateExpression:
+				sb.WriteString("(call )") // the formatter rewrites {! x } to @x
 			default:
 				fmt.Fprintf(&sb, "%T ", n)
 			}
